@@ -237,4 +237,139 @@ theorem png_no_rows_is_error (predictor colors columns bpc : Nat) (h : 10 ≤ pr
     · rw [if_pos h1]; dsimp only; rw [if_pos (by simp)]
     · rw [if_neg h1]
 
+/-! ## Sample matrices (the statement's quantifier: rows x columns x colours, 8 and 16 bits) -/
+
+/-- 8-bit sample matrices: a row of `columns * colors` samples is its own byte string. -/
+theorem predictor_roundtrip_samples8 (predictor colors columns : Nat) (m : List (List UInt8))
+    (hp : predictor = 2 ∨ (10 ≤ predictor ∧ predictor ≤ 14))
+    (hc : 1 ≤ colors) (hn : 1 ≤ columns)
+    (hfit : columns * colors * 8 < 18446744073709551616)
+    (hm : ∀ r ∈ m, r.length = columns * colors) (hne : predictor = 2 ∨ m ≠ []) :
+    Pred.transformTail (some (predictor : Int)) (some (colors : Int)) (some (columns : Int)) (some 8)
+      (PredSpec.predict ⟨predictor, colors, columns, 8⟩ m) = .ok m.flatten := by
+  have h1 : columns ≤ columns * colors := Nat.le_mul_of_pos_right _ hc
+  have h2 : colors ≤ columns * colors := Nat.le_mul_of_pos_left _ hn
+  exact predictor_roundtrip ⟨predictor, colors, columns, 8⟩ m
+    (by
+      rcases hp with h | h
+      · exact Or.inl ⟨h, Or.inl rfl⟩
+      · exact Or.inr ⟨h, by decide⟩)
+    (by show columns < _; omega) (by show colors * 8 < _; omega) (by simpa using hfit)
+    (by intro r hr; rw [hm r hr]; unfold PredSpec.rowBytes; simp only; omega)
+    hne
+
+/-- 16-bit sample matrices: samples are stored high-order byte first. -/
+theorem predictor_roundtrip_samples16 (predictor colors columns : Nat) (m : List (List UInt16))
+    (hp : predictor = 2 ∨ (10 ≤ predictor ∧ predictor ≤ 14))
+    (hc : 1 ≤ colors) (hn : 1 ≤ columns)
+    (hfit : columns * colors * 16 < 18446744073709551616)
+    (hm : ∀ r ∈ m, r.length = columns * colors) (hne : predictor = 2 ∨ m ≠ []) :
+    Pred.transformTail (some (predictor : Int)) (some (colors : Int)) (some (columns : Int)) (some 16)
+      (PredSpec.predict ⟨predictor, colors, columns, 16⟩ (m.map PredSpec.bytes16)) =
+        .ok (m.map PredSpec.bytes16).flatten := by
+  have h1 : columns ≤ columns * colors := Nat.le_mul_of_pos_right _ hc
+  have h2 : colors ≤ columns * colors := Nat.le_mul_of_pos_left _ hn
+  exact predictor_roundtrip ⟨predictor, colors, columns, 16⟩ (m.map PredSpec.bytes16)
+    (by
+      rcases hp with h | h
+      · exact Or.inl ⟨h, Or.inr rfl⟩
+      · exact Or.inr ⟨h, by decide⟩)
+    (by show columns < _; omega) (by show colors * 16 < _; omega) (by simpa using hfit)
+    (by
+      intro r hr
+      obtain ⟨x, hx, rfl⟩ := List.mem_map.mp hr
+      rw [bytes16_length, hm x hx]; unfold PredSpec.rowBytes; simp only; omega)
+    (by
+      rcases hne with h | h
+      · exact Or.inl h
+      · exact Or.inr (by simpa using h))
+
+example : ∃ m : List (List UInt16), m ≠ [] ∧ (∀ r ∈ m, r.length = 2 * 3) := ⟨[[1, 2, 3, 4, 5, 65535]], by decide⟩
+
+/-! ## The defects of the shipped code, as theorems about its arithmetic (DESIGN.md section 4, #12, #13)
+
+  The pre-fix `paeth` and Average step computed in `Wrapping<u8>`; these two definitions transcribe
+  them, and the theorems show they are not the functions of the PNG specification. -/
+
+/-- shipped `fn paeth` (all operations wrap modulo 256) -/
+def legacyPaeth (a b c : UInt8) : UInt8 :=
+  let p := a + b - c
+  let pa := if p > a then p - a else a - p
+  let pb := if p > b then p - b else b - p
+  let pc := if p > c then p - c else c - p
+  if pa ≤ pb ∧ pa ≤ pc then a else if pb ≤ pc then b else c
+
+/-- shipped Average step: `(row[j - bpp] + prev[j]) / Wrapping(2)` -/
+def legacyAverage (a b : UInt8) : UInt8 := (a + b) / 2
+
+theorem legacy_paeth_witness : legacyPaeth 10 20 200 ≠ PredSpec.paeth 10 20 200 := by decide
+theorem legacy_average_witness : legacyAverage 200 100 ≠ PredSpec.average 200 100 := by decide
+
+/-! ## No panic, no out-of-bounds access, for any parameters at all -/
+
+/-- `flate_lzw_filter` on arbitrary `usize` arguments and arbitrary data never reaches a panic site
+    (slice index, arithmetic overflow, division by zero): the result is a value or an error. -/
+theorem filter_never_panics (decoded : Bytes) (predictor colors columns bpc : Nat) :
+    ∀ s, Pred.filter decoded predictor colors columns bpc ≠ .panic s := by
+  intro s
+  unfold Pred.filter
+  by_cases h1 : predictor = 1
+  · rw [if_pos h1]; exact fun h => by cases h
+  · rw [if_neg h1]
+    by_cases h2 : predictor ≠ 2 ∧ ¬ (10 ≤ predictor ∧ predictor ≤ 15)
+    · rw [if_pos h2]; exact fun h => by cases h
+    · rw [if_neg h2]
+      cases Pred.geometry colors columns bpc with
+      | none => exact fun h => by cases h
+      | some g =>
+        obtain ⟨rb, bpp⟩ := g
+        dsimp only
+        by_cases h3 : predictor = 2
+        · rw [if_pos h3]
+          by_cases h4 : bpc < 8
+          · rw [if_pos h4]; exact fun h => by cases h
+          · rw [if_neg h4]
+            by_cases h5 : rb < 1
+            · rw [if_pos h5]; exact fun h => by cases h
+            · rw [if_neg h5]
+              by_cases h6 : decoded.length % rb ≠ 0
+              · rw [if_pos h6]; exact fun h => by cases h
+              · rw [if_neg h6]
+                obtain ⟨r, hr⟩ := tiffRows_total bpc colors rb (decoded.length / rb) decoded []
+                rw [hr]; exact fun h => by cases h
+        · rw [if_neg h3]
+          unfold Pred.checkedAdd
+          by_cases h4 : rb + 1 < Pred.usizeLim
+          · rw [if_pos h4]; dsimp only
+            by_cases h5 : rb + 1 > decoded.length
+            · rw [if_pos h5]; exact fun h => by cases h
+            · rw [if_neg h5]
+              by_cases h6 : decoded.length % (rb + 1) ≠ 0
+              · rw [if_pos h6]; exact fun h => by cases h
+              · rw [if_neg h6]
+                exact pngRows_no_panic predictor bpp (rb + 1) (by omega) _ decoded _ []
+                  (by simp) (Nat.div_mul_le_self _ _) s
+          · rw [if_neg h4]; exact fun h => by cases h
+
+/-- **predictor_never_panics.**  For ALL integer values of /Predictor, /Colors, /Columns and
+    /BitsPerComponent (absent, zero, negative, ≥ 2^32, `i64::MAX`, …) and all inflated data, the tail
+    of `FlateDecode::transform` (casts `as usize`, then `flate_lzw_filter`) yields `ok` or `err`. -/
+theorem predictor_never_panics (predictor colors columns bpc : Option Int) (decoded : Bytes) :
+    (Pred.transformTail predictor colors columns bpc decoded).isPanic = false := by
+  unfold Pred.transformTail
+  generalize hf : Pred.filter decoded _ _ _ _ = r
+  cases r with
+  | ok _ => rfl
+  | err _ => rfl
+  | panic s => exact absurd hf (filter_never_panics _ _ _ _ _ s)
+
+/-- The statement is not vacuous: the three parameter sets that made the shipped code panic
+    (DESIGN.md section 4, #14 - #16) are in its domain and are now errors. -/
+example :
+    Pred.transformTail (some 12) (some (-1)) (some 1) (some 8) [2, 0] = .err .transform ∧
+    Pred.transformTail (some 12) (some 4) (some 9223372036854775807) (some 8) [2, 0] = .err .transform ∧
+    Pred.transformTail (some 13) (some 1) (some 1) (some 64) [3, 0] = .err .transform ∧
+    Pred.transformTail none none none none [3, 0] = .ok [3, 0] := by
+  decide
+
 end Parsley.C07
